@@ -918,7 +918,7 @@ func init() {
 	})
 	register("C24", func(c *Ctx) error {
 		return runStreamProp(c, func(i int) *streamProfile {
-			return &streamProfile{name: "backup", wCommit: 10, wFlush: 4, wCompact: 3, wRun: 1, wBackup: 4, wKtl: 3, nOps: 16 + c.Rng.Intn(24)}
+			return &streamProfile{name: "backup", wCommit: 10, wFlush: 4, wCompact: 3, wRun: 1, wBackup: 4, wKtl: 3, nOps: 10 + c.Rng.Intn(16)}
 		})
 	})
 }
